@@ -12,6 +12,8 @@
 //	psim   <blob> <arglen> <gas>    Psi_M(blob, 0, gas, argument) with the node's gas and machine host calls
 //	mach   <inner> <i>              the machine host call on an inner blob placed in guest memory
 //	refine <inner> <gas>            Psi_M on an assembled refine program that passes <inner> to machine and halts with ω7
+//	range  <call> <start> <len> <blob>  Psi_M (gas 100) on an assembled program that puts the 64-bit values start, len into the
+//	                                pointer/length registers of <call> = halt | log | mach | export and makes that call
 //
 // output (the OCaml driver replaces a=<bytes> by a=ok when it is within the model's bound, and ignores k=)
 //
@@ -21,6 +23,7 @@
 //	psim  : skip-sbrk | def k=<halt|panic|oog> g=<ok|OVER:n> a=N | UNDEF:<what>
 //	mach  : r7=<n> n=<machines> a=N
 //	refine: k=<..> out=<hex of the halt output> g=<ok|OVER:n>
+//	range : k=<..> olen=<length of the halt output> g=<ok|OVER:n> a=N
 //
 // A Go runtime panic is GOPANIC <kind>; a call that does not return within the watchdog is HANG, a heap
 // beyond the guard is OOM (the harness then stops: the remaining cases are not run).
@@ -138,6 +141,14 @@ func omegas() PVM.Omegas {
 	om := make(PVM.Omegas, len(PVM.HostCallFunctions))
 	om[PVM.GasOp] = PVM.HostCallFunctions[PVM.GasOp]
 	om[PVM.MachineOp] = PVM.HostCallFunctions[PVM.MachineOp]
+	return om
+}
+
+// the table of the range cases: gas, machine, export and log (the node's own functions)
+func omegasRange() PVM.Omegas {
+	om := omegas()
+	om[PVM.ExportOp] = PVM.HostCallFunctions[PVM.ExportOp]
+	om[100] = PVM.RefineOmegas[100]
 	return om
 }
 
@@ -324,6 +335,28 @@ func run(line string) string {
 		}
 		return fmt.Sprintf("r7=%d n=%d a=%d", regs[7], len(out.Addition.IntegratedPVMMap), r.alloc)
 
+	case "range":
+		if len(t) != 5 {
+			return "BADCASE"
+		}
+		blob := h.UnHex(t[4])
+		om, ad := omegasRange(), addition()
+		var res PVM.Psi_M_ReturnType
+		r := measured(line, func() string {
+			res = PVM.Psi_M(blob, 0, types.Gas(100), nil, om, ad)
+			return ""
+		})
+		if r.out != "" {
+			return r.out
+		}
+		kind, out, g := classify(res, 100)
+		s := fmt.Sprintf("k=%s olen=%d g=%s a=%d", kind, len(out), g, r.alloc)
+		res = PVM.Psi_M_ReturnType{}
+		if r.alloc > 64<<20 {
+			debug.FreeOSMemory()
+		}
+		return s
+
 	case "refine":
 		inner := h.UnHex(t[1])
 		limit := h.U(t[2])
@@ -383,6 +416,7 @@ func (a *asm) ins(b ...byte) int {
 }
 func (a *asm) loadImm(reg byte, v uint32) { a.ins(append([]byte{51, reg}, le(uint64(v), 4)...)...) }
 func (a *asm) halt()                      { a.ins(50, 0) } // jump_ind r0+0, r0 = 2^32-2^16
+func (a *asm) loadImm64(reg byte, v uint64) { a.ins(append([]byte{20, reg}, le(v, 8)...)...) }
 
 func (a *asm) maskBytes() []byte {
 	mb := make([]byte, (len(a.code)+7)/8)
@@ -434,6 +468,38 @@ func refineProgram(inner []byte) []byte {
 	a.loadImm(8, 8)
 	a.halt()
 	return standard(inner, make([]byte, 8), 0, 4096, a.blob(nil, 0))
+}
+
+// rangeProgram: 9 bytes of read-only data (page 16), 16 bytes of read-write data + one heap page (pages 48, 49), one
+// stack page; the program loads the 64-bit pair (start, length) into the registers of the call and makes it.
+func rangeProgram(call string, start, length uint64) []byte {
+	ro := []byte{0x11, 0x22, 0x33, 0x44, 0x55, 0x66, 0x77, 0x88, 0x99}
+	rwd := []byte{1, 2, 3, 4, 5, 6, 7, 8, 9, 10, 11, 12, 13, 14, 15, 16}
+	a := &asm{}
+	switch call {
+	case "halt": // R (A.41) reads the output range from ω7, ω8
+		a.loadImm64(7, start)
+		a.loadImm64(8, length)
+	case "log": // level 9: nothing is printed, the message range is still checked and read
+		a.loadImm64(10, start)
+		a.loadImm64(11, length)
+		a.loadImm(7, 9)
+		a.ins(10, 100)
+	case "mach":
+		a.loadImm64(7, start)
+		a.loadImm64(8, length)
+		a.ins(10, byte(PVM.MachineOp))
+		a.loadImm(8, 0)
+	case "export":
+		a.loadImm64(7, start)
+		a.loadImm64(8, length)
+		a.ins(10, byte(PVM.ExportOp))
+		a.loadImm(8, 0)
+	default:
+		panic("verifh: bad range call " + call)
+	}
+	a.halt()
+	return standard(ro, rwd, 1, 4096, a.blob(nil, 0))
 }
 
 // ---------------------------------------------------------------- valid base programs
@@ -775,6 +841,51 @@ func gen(rng *h.Rng, tier string, emit func(string)) {
 			copy(p[8:], le(uint64(rng.Intn(9000)), 3))
 		}
 		stdb("random", p)
+	}
+
+	// (l) pointer/length register pairs at the 64-bit and 32-bit wrap boundaries, for the halt output and for host calls
+	{
+		starts := []uint64{0, 1, 0x3000, 0xFFFF, 0x10000, 0x10008, 0x10FFF, 0x11000, 0x30000, 0x3000F, 0x30FFF, 0x31000, 0x31FFF, 0x32000,
+			0xFEFDF000, 0xFEFDFFFF, 0xFEFE0000, 1<<32 - 4096, 1<<32 - 1, 1 << 32, 1<<32 + 1, 1 << 63, 1<<63 + 0x1000, 1<<64 - 0x3000,
+			1<<64 - 0x1000, 1<<64 - 2, 1<<64 - 1}
+		lens := []uint64{0, 1, 2, 9, 16, 4095, 4096, 4097, 8192, 8193, 1<<32 - 1, 1 << 32, 1<<32 + 1, 1 << 63, 1<<63 + 0x1000, 1<<64 - 0x3000,
+			1<<64 - 0x1000, 1<<64 - 1}
+		calls := []string{"halt", "log", "mach", "export"}
+		emitR := func(call string, st0, ln uint64) {
+			put("range-"+call, fmt.Sprintf("range %s %d %d %s", call, st0, ln, h.Hex(rangeProgram(call, st0, ln))))
+		}
+		for _, st0 := range starts {
+			var ls []uint64
+			ls = append(ls, lens...)
+			// lengths that make start+length hit 2^64 (= 0 after the wrap), 2^64 +- 1, 2^64 + a page, 2^32, 2^32 +- 1
+			for _, d := range []uint64{0, 1, ^uint64(0), 0x1000, 0x2000, 0x31000, 1 << 32} {
+				ls = append(ls, -st0+d)
+			}
+			for _, d := range []uint64{0, 1, ^uint64(0)} {
+				ls = append(ls, 1<<32-st0+d)
+			}
+			for _, ln := range ls {
+				for _, c := range calls {
+					if c == "halt" || rng.Chance(1, 2) {
+						emitR(c, st0, ln)
+					}
+				}
+			}
+		}
+		for i := 0; i < 600*scale; i++ {
+			st0, ln := rng.U64(), rng.U64()
+			switch rng.Intn(4) {
+			case 0:
+				ln = -st0 + uint64(rng.Intn(0x40000))
+			case 1:
+				st0 = uint64(rng.Intn(0x40000))
+				ln = uint64(rng.Intn(0x3000))
+			case 2:
+				st0 = 0x30000 + uint64(rng.Intn(0x2000))
+				ln = uint64(rng.Intn(0x2100))
+			}
+			emitR(calls[rng.Intn(len(calls))], st0, ln)
+		}
 	}
 
 	// (j,k) the large declared sizes, a few of each (each costs up to some hundred MiB)
